@@ -83,6 +83,9 @@ def BHJM_magnet_tetrahedron(
     # allocate - try not to generate more arrays
     BHJM = polarization.astype(float)
 
+    # same vertex order for every field, so that B, J and M share one inside/outside decision
+    vertices = check_chirality(vertices)
+
     if field == "J":
         mask_inside = point_inside(observers, vertices, in_out)
         BHJM[~mask_inside] = 0
@@ -92,8 +95,6 @@ def BHJM_magnet_tetrahedron(
         mask_inside = point_inside(observers, vertices, in_out)
         BHJM[~mask_inside] = 0
         return BHJM / MU0
-
-    vertices = check_chirality(vertices)
 
     tri_vertices = np.concatenate(
         (
